@@ -403,6 +403,8 @@ class Categorize(Factory, Container):
             isinstance(other, Categorize)
             and numeq(self.entries, other.entries)
             and self.quantity == other.quantity
+            and self.contentType == other.contentType
+            and (self.value is None or other.value is None or self.value == other.value)
             and self.bins == other.bins
         )
 
